@@ -37,6 +37,8 @@ func init() {
 			return z
 		}
 	}
+	// internal/abi.NoEscape(p) hides p from escape analysis (p ^ 0): identity
+	reg("internal/abi.NoEscape", func(in *Interp, c *frame, fn *ssa.Function, a []value) value { return a[0] })
 	reg(bi+"Lsh", shift(true))
 	reg(bi+"Rsh", shift(false))
 }
